@@ -3,6 +3,7 @@ package decoders
 import (
 	"context"
 	"io"
+	"net/http"
 	"strings"
 
 	"github.com/yandex/pandora/components/providers/http/config"
@@ -11,11 +12,12 @@ import (
 // ---- C07: what the provider delivers equals what the file says, whatever the permitted layout ----
 
 type c07Entry struct {
-	uri  string
-	tag  string
-	body string
-	hdr  string // value of header H in effect for this entry ("" = none)
-	host string // value of an in-file [Host: v] line in effect ("" = none)
+	uri    string
+	tag    string
+	body   string
+	hdr    string // value of header H in effect for this entry ("" = none)
+	host   string // value of an in-file [Host: v] line in effect ("" = none)
+	method string // "" = the format's default
 }
 
 func c07Byte(name string, lo, hi byte) string {
@@ -30,41 +32,61 @@ func c07Check(dec config.DecoderType, file string, want []c07Entry, passes int) 
 	if err != nil {
 		return
 	}
-	// requests are built either right after each Scan (streaming) or only after everything has
-	// been scanned (as the preloading provider does)
-	deferBuild := vNondetBool("deferBuild")
+	// requests are built either right after each Scan (streaming), or only after everything has
+	// been scanned (as the preloading provider does), or all of them are built first and their
+	// bodies are read afterwards (several instances hold a built request at the same time)
+	mode := vNondetInt("mode", 0, 2)
+	deferBuild := mode >= 1
+	inFlight := mode == 2
 	var pending []DecodedAmmo
 	n := 0
-	verify := func(a DecodedAmmo, k int) bool {
+	readBody := func(req *http.Request) string {
+		var got []byte
+		if req.Body != nil {
+			var rerr error
+			got, rerr = io.ReadAll(req.Body)
+			vCheck("F2.body.readable", rerr == nil)
+		}
+		return string(got)
+	}
+	build := func(a DecodedAmmo, k int) *http.Request {
 		w := want[k%len(want)]
 		req, berr := a.BuildRequest()
 		vCheck("F2.request.builds", berr == nil)
 		if berr != nil {
-			return false
+			return nil
 		}
 		vCheck("F2.tag", a.Tag() == w.tag)
 		vCheck("F2.path", req.URL.Path == w.uri)
 		vCheck("F2.header.in.effect", req.Header.Get("H") == w.hdr)
 		vCheck("F2.host.in.effect", req.Host == w.host)
-		if dec == config.DecoderURIPost {
+		switch {
+		case w.method != "":
+			vCheck("F2.method", req.Method == w.method)
+		case dec == config.DecoderURIPost:
 			vCheck("F2.method.post", req.Method == "POST")
-			var got []byte
-			if req.Body != nil {
-				got, _ = io.ReadAll(req.Body)
-			}
-			vCheck("F2.body.bytes", string(got) == w.body)
+		default:
+			vCheck("F2.method.get", req.Method == "GET")
+		}
+		return req
+	}
+	hasBody := func(k int) bool {
+		return dec == config.DecoderURIPost || want[k%len(want)].body != ""
+	}
+	verify := func(a DecodedAmmo, k int) bool {
+		w := want[k%len(want)]
+		req := build(a, k)
+		if req == nil {
+			return false
+		}
+		if hasBody(k) {
+			vCheck("F2.body.bytes", readBody(req) == w.body)
 			// the same decoded entry is built again on every later pass of a preloading provider
 			req2, berr2 := a.BuildRequest()
 			vCheck("F2.rebuild.ok", berr2 == nil)
 			if berr2 == nil {
-				var got2 []byte
-				if req2.Body != nil {
-					got2, _ = io.ReadAll(req2.Body)
-				}
-				vCheck("F2.body.bytes.on.rebuild", string(got2) == w.body)
+				vCheck("F2.body.bytes.on.rebuild", readBody(req2) == w.body)
 			}
-		} else {
-			vCheck("F2.method.get", req.Method == "GET")
 		}
 		return true
 	}
@@ -85,9 +107,23 @@ func c07Check(dec config.DecoderType, file string, want []c07Entry, passes int) 
 		}
 		n++
 	}
-	for k, a := range pending {
-		if !verify(a, k) {
-			return
+	if inFlight {
+		reqs := make([]*http.Request, len(pending))
+		for k, a := range pending {
+			if reqs[k] = build(a, k); reqs[k] == nil {
+				return
+			}
+		}
+		for k, req := range reqs {
+			if hasBody(k) {
+				vCheck("F2.body.bytes.in.flight", readBody(req) == want[k%len(want)].body)
+			}
+		}
+	} else {
+		for k, a := range pending {
+			if !verify(a, k) {
+				return
+			}
 		}
 	}
 	vCheck("F1.every.entry.every.pass", n == passes*len(want))
@@ -201,6 +237,21 @@ func HarnessC07Raw() {
 		want = append(want, e)
 	}
 	c07Check(config.DecoderRaw, file, want, 2)
+}
+
+// raw entries carrying a body (POST with Content-Length)
+func HarnessC07RawBody() {
+	E := 2
+	var want []c07Entry
+	file := ""
+	for i := 0; i < E; i++ {
+		bl := int(vConcretize(vNondetInt("bodyLen", 1, 2)))
+		e := c07Entry{uri: "/" + c07Byte("u", 'a', 'z'), tag: c07Byte("t", 'a', 'z'), host: "h", method: "POST", body: vNondetString("b", bl)}
+		req := "POST " + e.uri + " HTTP/1.1\r\nHost: h\r\nContent-Length: " + string(rune('0'+bl)) + "\r\n\r\n" + e.body
+		file += itoa09x(len(req)) + " " + e.tag + "\n" + req + "\n"
+		want = append(want, e)
+	}
+	c07Check(config.DecoderRaw, file, want, 1)
 }
 
 func itoa09x(n int) string {
